@@ -109,14 +109,27 @@ def run_enc(r, seed, kl, ki, lens):
             if ml < 0:
                 continue
             b = A(key_length=kl, message_length=ml)
+            # the contract belongs to the object however it is called and wherever it has been: positional / keyword arguments,
+            # the object itself / a pickled copy / a deep copy (rotating with the message length)
+            style = n % 4
+            try:
+                if style == 2:
+                    import pickle as _pickle
+                    b = _pickle.loads(_pickle.dumps(b))
+                elif style == 3:
+                    import copy as _copy
+                    b = _copy.deepcopy(b)
+            except Exception:
+                r.count('cipher-object-not-copyable (not demanded)')
+                style = 0
             r['transitions'] += 1
             try:
-                b.Encrypt(key, m)
+                b.Encrypt(key=key, message=m) if style == 1 else b.Encrypt(key, m)
                 if not ok:
-                    r.v(PROPERTY, 'AES-CBC', 'contract', 'message-length-accepted', dict(case, declared=ml), 'ValueError', 'accepted')
+                    r.v(PROPERTY, 'AES-CBC', 'contract', 'message-length-accepted', dict(case, declared=ml, call_style=['positional', 'keyword', 'pickled-object', 'deep-copied-object'][style]), 'ValueError', 'accepted')
             except ValueError:
                 if ok:
-                    r.v(PROPERTY, 'AES-CBC', 'contract', 'message-length-refused', dict(case, declared=ml), 'accepted', 'ValueError')
+                    r.v(PROPERTY, 'AES-CBC', 'contract', 'message-length-refused', dict(case, declared=ml, call_style=['positional', 'keyword', 'pickled-object', 'deep-copied-object'][style]), 'accepted', 'ValueError')
                 else:
                     r.count('declared-mismatch-refused')
             except Exception as e:
@@ -125,9 +138,20 @@ def run_enc(r, seed, kl, ki, lens):
             if cl <= 0:
                 continue
             b = A(key_length=kl, cipher_length=cl)
+            style = (n + 1) % 4
+            try:
+                if style == 2:
+                    import pickle as _pickle
+                    b = _pickle.loads(_pickle.dumps(b))
+                elif style == 3:
+                    import copy as _copy
+                    b = _copy.deepcopy(b)
+            except Exception:
+                r.count('cipher-object-not-copyable (not demanded)')
+                style = 0
             r['transitions'] += 1
             try:
-                got = b.Decrypt(key, c1)
+                got = b.Decrypt(key=key, cipher_text=c1) if style == 1 else b.Decrypt(key, c1)
                 if not ok:
                     r.v(PROPERTY, 'AES-CBC', 'contract', 'cipher-length-accepted', dict(case, declared=cl), 'ValueError', 'accepted')
                 elif got != m:
